@@ -5,7 +5,10 @@
 
 pub use crate::socket::{
     mapped_addrs::verif::{AddrMaps, Kind as AddrKind, classify},
-    transports::relay_actor_verif::HomeRelay,
+    transports::{
+        relay_actor_verif::HomeRelay,
+        relay_verif::{RecvOut, RelayRecvHarness},
+    },
 };
 use crate::{address_lookup::AddressLookupServices, endpoint_info::EndpointData};
 
